@@ -21,12 +21,20 @@
 #define C14_SINK_ASSIGNS verif_exc, g_wpos, g_wval, g_err_seen, g_chunk
 
 /* ---- descriptor, exact size ------------------------------------------------------------------------------------------ */
+#ifdef C14_EXACT_SMALL
+#define C14_EXACT_MAX 4
+#else
+#define C14_EXACT_MAX C14_MAXLEN
+#endif
 void phosg_readx(int fd, void* data, size_t size)
 C14_ENTRY
-__CPROVER_requires(size <= C14_MAXLEN)
+__CPROVER_requires(size <= C14_EXACT_MAX)
 __CPROVER_requires(__CPROVER_is_fresh(data, size))
 C14_IOERR
-__CPROVER_ensures((verif_exc == 0) == (g_chunk >= 0 && (size_t)g_chunk == size))            /* throws iff the one read() was short or failed */
+/* "exactly the bytes the source delivers, or throw": a read() that delivers everything at once succeeds; success means that all `size`
+ * bytes were consumed from the stream (a short or failed delivery may only end in an exception or be completed by further reads) */
+__CPROVER_ensures((g_chunk >= 0 && (size_t)g_chunk == size) ==> verif_exc == 0)
+__CPROVER_ensures((g_chunk < 0 || (size != 0 && g_chunk == 0)) ==> verif_exc != 0)                 /* read() failed / end of file before `size` bytes */
 __CPROVER_ensures(verif_exc == 0 ==> g_pos == __CPROVER_old(g_pos) + size)
 __CPROVER_ensures((verif_exc == 0 && g_vk >= __CPROVER_old(g_pos) && g_vk < g_pos) ==> C14_U8(data)[g_vk - __CPROVER_old(g_pos)] == g_sval)
 __CPROVER_assigns(C14_SRC_ASSIGNS; size != 0: __CPROVER_object_upto(data, size));
@@ -34,7 +42,8 @@ __CPROVER_assigns(C14_SRC_ASSIGNS; size != 0: __CPROVER_object_upto(data, size))
 void phosg_readx_str(vstr* ret, int fd, size_t size)
 C14_ENTRY C14_RET(ret, size)
 C14_IOERR
-__CPROVER_ensures((verif_exc == 0) == (g_chunk >= 0 && (size_t)g_chunk == size))
+__CPROVER_ensures((g_chunk >= 0 && (size_t)g_chunk == size) ==> verif_exc == 0)
+__CPROVER_ensures((g_chunk < 0 || (size != 0 && g_chunk == 0)) ==> verif_exc != 0)
 __CPROVER_ensures(verif_exc == 0 ==> (ret->size == size && g_pos == __CPROVER_old(g_pos) + size))
 __CPROVER_ensures((verif_exc == 0 && g_vk >= __CPROVER_old(g_pos) && g_vk < g_pos) ==> (uint8_t)ret->data[g_vk - __CPROVER_old(g_pos)] == g_sval)
 __CPROVER_assigns(C14_SRC_ASSIGNS, ret->size, __CPROVER_object_whole(ret->data));
